@@ -253,6 +253,9 @@ func RecoverLegacyRawTransaction(ctx context.Context, rawTx ethtypes.HexBytes0xP
 		Data:     ethtypes.HexBytes0xPrefix(rlpList[5].ToData()),
 	}
 
+	if rlpList[6].IsList() {
+		return nil, nil, i18n.NewError(ctx, signermsgs.MsgInvalidLegacyTransaction, "V")
+	}
 	vValue := rlpList[6].ToData().Int().Int64()
 	rValue := rlpList[7].ToData().BytesNotNil()
 	sValue := rlpList[8].ToData().BytesNotNil()
@@ -341,6 +344,9 @@ func RecoverEIP1559Transaction(ctx context.Context, rawTx ethtypes.HexBytes0xPre
 	rlpList, tx, err := decodeEIP1559SignaturePayload(ctx, rawTx, chainID, 12 /* with signature data */)
 	if err != nil {
 		return nil, nil, err
+	}
+	if rlpList[9].IsList() {
+		return nil, nil, i18n.NewError(ctx, signermsgs.MsgInvalidEIP1559Transaction, "V")
 	}
 
 	return recoverCommon(tx,
